@@ -90,7 +90,8 @@ def rule_m3(chk: Check, ix: Index, ir, rule_id: str = "M3-flag-typestate"):
                     chk.count(rule_id)
                     key = f"{flag}:{r.name}#alt{i}.i{j}"
                     nxt = a.items[j + 1].item if j + 1 < len(a.items) else None
-                    committed = isinstance(nxt, Cut) or len(r.alts) == 1
+                    # committed: `~` right after it, or already committed by an earlier `~` of the same alternative
+                    committed = isinstance(nxt, Cut) or len(r.alts) == 1 or any(isinstance(p.item, Cut) for p in a.items[:j])
                     chk.require(committed, rule_id, key + ":commit", str(a.pos),
                                 f"`{start_rule}` switches `{flag}` on during a speculative parse; the alternative `{a}` must commit "
                                 f"with `~` right after it (or be the rule's only alternative), otherwise a failed attempt leaves raw-"
